@@ -2,7 +2,7 @@
      H <hex> | F <testdata name> <off:val,...|-> | SIZES
    first token of argv (optional): "unfixed" runs the model of the code before the fix commits.
    output:  R=..;SI=..;TL=..;...;EXP=..;led=<largest ledger entry>   or "?" (case not predicted) *)
-let tags = [| "R"; "SI"; "TL"; "ML"; "UM"; "MEM"; "M64"; "MI"; "TI"; "TN"; "HD"; "EX"; "EXP"; "EXC" |]
+let tags = [| "R"; "SI"; "TL"; "ML"; "UM"; "MEM"; "M64"; "MI"; "TI"; "TN"; "HD"; "EX"; "EXP"; "EXC"; "TLP"; "MS"; "LC"; "LS"; "LR"; "LE"; "LL"; "MA" |]
 let kinds = [| "none"; "x86"; "amd64"; "ppc"; "ppc64"; "sparc"; "arm"; "arm64"; "arm64old"; "mips" |]
 let err_names = [| "MissingHeader"; "HeaderMismatch"; "VersionMismatch"; "MissingDirectory"; "StreamReadFailure";
                    "StreamSizeMismatch"; "StreamNotFound"; "ModuleReadFailure"; "MemoryReadFailure"; "DataError";
@@ -49,6 +49,7 @@ let () =
               tags.(int_of_z t) ^ "=" ^
               (match f with
                | FOk [n; k] when int_of_z t = 11 -> "ok:" ^ string_of_z n ^ ":" ^ kinds.(int_of_z k)
+               | FOk vs when int_of_z t = 21 -> "ok:" ^ String.concat "" (List.map string_of_z vs)
                | FOk vs -> String.concat ":" ("ok" :: List.map string_of_z vs)
                | FErr e -> "err:" ^ err_names.(int_of_z (err_code e))
                | FPan t -> "!P(" ^ string_of_z t ^ ")"
